@@ -1053,19 +1053,73 @@ def awake_twins(hists, per_history=25):
     return index, twins
 
 
+# ---- what a wake signal carries ---------------------------------------------------------------
+#
+# The wake signal of 2.0 / 2.1 (heartbeat response) carries a counter kept by the NODE: it restarts when the node boots,
+# wraps, stands still when the node did nothing in between, and has nothing to do with what the controller stored for the
+# node (the value of the last wake, or whatever the persistence file restored).  The wake signal of 2.2 (pre-sleep
+# notification) carries a duration.  C07 / C12 speak of "the node's next wake", not of its payload: every wake signal the
+# library accepts is a wake - falling, equal, rising, 0, negative, huge, written with a sign / blanks / leading zeros.
+
+WAKE_COUNTS = (0, 1, 2, 7, 255, 256, 65535, 65536, 2 ** 31 - 1, 2 ** 32 - 1, 2 ** 32, 2 ** 63, 2 ** 64 + 1, 10 ** 30)
+WAKE_NOT_A_NUMBER = ("", "abc", "1.5", "0x10", "7 7", "--1")
+
+
+def next_wake_count(rng, last: int) -> int:
+    """The counter a node reports at a wake, relative to `last` (what the controller has stored for it)."""
+    r = rng.random()
+    if r < 0.2:
+        return last + rng.choice((1, 1, 2, 1000))
+    if r < 0.35:
+        return last
+    if r < 0.55:
+        return last - rng.choice((1, 2, max(1, abs(last) // 2)))
+    if r < 0.7:
+        return rng.choice((0, 0, 1))                 # the node booted: its counter starts again
+    if r < 0.8:
+        return rng.choice(WAKE_COUNTS)
+    if r < 0.93:
+        return rng.randint(0, 100)
+    return -rng.choice((1, 500))
+
+
+def wake_text(rng, n: int) -> str:
+    """A way to write the number `n` that Python's `int` reads as `n`."""
+    s = str(n)
+    if rng.random() < 0.85:
+        return s
+    return rng.choice([" " + s, s + " "] + ([] if n < 0 else ["00" + s, "+" + s]))
+
+
 def sleepy_history(rng, version, length, fault_p=0.0, cancel_p=0.0, payloads=None, internal_types=(22, 32, 33, 21, 0),
-                   reconnect_p=0.0, session_op=gw.SESSION):
+                   reconnect_p=0.0, session_op=gw.SESSION, no_number_p=0.0):
     """Sends and wake / non-wake messages over 3 nodes x 2 children x 2 types.  `payloads`: the values of the set
     commands are drawn from this pool instead of being small numbers.  `internal_types`: the internal messages the nodes
     send besides their wake signal.  `reconnect_p`: a step with scripted write faults
     is followed, with this probability, by 1-3 reconnects (the error leaves the gateway context, the application enters
-    it again); `session_op`: what a reconnect is (`gw.SESSION`, or `gw.SESSION_FILE` = with a persistence file)."""
+    it again); `session_op`: what a reconnect is (`gw.SESSION`, or `gw.SESSION_FILE` = with a persistence file).
+    What the wake signals CARRY: in one history out of four the constant "7"; in the others every wake signal (and every
+    heartbeat response) carries the node's next counter value (`next_wake_count`: rising, equal, falling, restarted,
+    huge, negative - relative to the last one, which starts at the heartbeat value of the node's restored record: 0, small
+    or huge), written as `wake_text` writes it; `no_number_p`: the probability that it carries no number at all (which
+    2.0 / 2.1 reject as an invalid message: not a wake)."""
     h = Hist(version, True)
+    vary = rng.random() < 0.75
+    counts = {}
     for n in (1, 2, 3):
-        h.preload.append(("node", n, 17, "2.0", "", "", 0, 0, False, rng.random() < 0.6))
+        counts[n] = rng.choice((0, 0, 7, 500, 2 ** 32, 10 ** 20)) if vary else 0
+        h.preload.append(("node", n, 17, "2.0", "", "", 0, counts[n], False, rng.random() < 0.6))
         for c in (0, 1):
             h.preload.append(("child", n, c, c, 6, ""))
     wake_t = 32 if version == "2.2" else 22
+
+    def carried(n):
+        if not vary:
+            return "7"
+        if no_number_p and rng.random() < no_number_p:
+            return rng.choice(WAKE_NOT_A_NUMBER)
+        counts[n] = next_wake_count(rng, counts[n])
+        return wake_text(rng, counts[n])
     for _ in range(length):
         r = rng.random()
         n = rng.choice((1, 2, 3))
@@ -1073,9 +1127,10 @@ def sleepy_history(rng, version, length, fault_p=0.0, cancel_p=0.0, payloads=Non
             op = ("send", (n, rng.choice((0, 1)), 1, rng.choice((0, 1)), rng.choice((0, 2)),
                           str(rng.randint(0, 99)) if payloads is None else rng.choice(payloads)), rng.random() < 0.85, ())
         elif r < 0.8:
-            op = ("recv", f"{n};255;3;0;{wake_t};7", (), gw.DEFAULT_TIME)
+            op = ("recv", f"{n};255;3;0;{wake_t};{carried(n)}", (), gw.DEFAULT_TIME)
         elif r < 0.88:
-            op = ("recv", f"{n};255;3;0;{rng.choice(internal_types)};7", (), gw.DEFAULT_TIME)
+            t = rng.choice(internal_types)
+            op = ("recv", f"{n};255;3;0;{t};{carried(n) if t in (22, wake_t) else '7'}", (), gw.DEFAULT_TIME)
         elif r < 0.92:
             # the gateway reports a (possibly different) version while commands are parked: nothing may be dropped
             rep = rng.choice(["2.0", "2.1", "2.2", "2.1.1", "2.2.0", version])
@@ -1285,7 +1340,10 @@ def run_c07(ctx) -> Corr:
                 "hold / second node / second key / unbuffered send / wake / overwrite in both orders by a value differing in "
                 "outer whitespace only / re-parking, and random sleepy histories over that pool; oracle there = the line "
                 "written at the wake is byte for byte encode(message sent) AND what the same send writes for the same node "
-                "awake (a twin history). non-trivial = distinct (state, op) that parks a command or releases at least one")
+                "awake (a twin history). The wake signals of the random histories carry the nodes' counters (sleepy_history: "
+                "rising, equal, falling, restarted at 0, huge, negative relative to the last / the restored heartbeat value; "
+                "now and then no number: rejected under 2.0 / 2.1, not a wake) or the constant 7. "
+                "non-trivial = distinct (state, op) that parks a command or releases at least one")
     rng = lib.rng_for(ctx.seed, "c07")
     hists = [h for _, h in corpus_histories("C07")]
     n = 250 if ctx.tier == "quick" else 4000
@@ -1293,7 +1351,7 @@ def run_c07(ctx) -> Corr:
     for i in range(n):
         # (every other round of the five versions: the nodes' other internal messages are drawn from every internal type)
         hists.append(sleepy_history(rng, lib.VERSIONS[i % 5], rng.randint(5, 40 if ctx.tier == "quick" else 120),
-                                    **({"internal_types": every} if i // 5 % 2 else {})))
+                                    no_number_p=0.05, **({"internal_types": every} if i // 5 % 2 else {})))
     # whatever a sleeping node sends between the parking of a command and its wake, it stays a sleeping destination
     hists += between_internal_histories(ctx, corr)
     # what a held command carries when it is written at the wake (value kinds that an immediate write leaves alone)
@@ -2375,6 +2433,84 @@ def _c12_between_histories(ctx, corr: Corr):
     return hists
 
 
+def _c12_wake_payload_histories(ctx, corr: Corr):
+    """Histories about WHAT THE WAKE SIGNAL CARRIES when commands are held for its node.  "Handed to the transport at
+    that node's next wake": the next wake signal the library accepts, whatever its payload.  The heartbeat response of
+    2.0 / 2.1 carries a counter kept by the node (it restarts when the node boots), the pre-sleep notification of 2.2 a
+    duration; the controller has a heartbeat value stored for the node - from the node's last wake, or restored from the
+    persistence file (0, small, huge).  The grid: stored value x what the next wake carries relative to it (lower, equal,
+    higher, 0, 1, huge, negative, written with a sign / blanks / leading zeros, and no number at all: rejected by
+    2.0 / 2.1, so not a wake - what is held then waits for the next one) x node known to be sleeping from its restored
+    record / from its own earlier wake x versions; two nodes with held commands, a second hold and a second wake that
+    falls again, then wakes carrying 0.  Random cycles over two sleeping nodes whose counters walk (`next_wake_count`).
+    recv / send operations only."""
+    t0 = gw.DEFAULT_TIME
+    hists = []
+
+    def wake(v, n, text):
+        return ("recv", f"{n};255;3;0;{32 if v == '2.2' else 22};{text}", (), t0)
+
+    def carried(stored):
+        return {"lower": str(stored - 1), "much lower": str(stored // 2 - 1), "equal": str(stored), "higher": str(stored + 1),
+                "zero": "0", "one": "1", "huge": str(10 ** 30 + 7), "negative": "-3", "blank before": " 3", "blank after": "3 ",
+                "plus sign": "+3", "leading zeros": "003", "empty": "", "letters": "abc", "decimal point": "1.5"}
+
+    k = 0
+    for v in lib.VERSIONS:
+        thin = v not in V20          # 1.x has no wake signal: the line is rejected, what is held stays held
+        for announced in ((False,) if thin else (False, True)):
+            for stored in ((500, 0) if thin else (500, 7, 1, 0, 2 ** 32, 10 ** 30)):
+                for name, text in carried(stored).items():
+                    if thin and name not in ("lower", "equal", "empty"):
+                        continue
+                    k += 1
+                    n, m, a = [(1, 2, 3), (3, 1, 2), (2, 254, 1)][k % 3]
+                    h = Hist(v, True)
+                    for node, flag, hb in ((n, not announced, 0 if announced else stored), (m, True, stored), (a, False, stored)):
+                        h.preload.append(("node", node, 17, "2.0", "", "", 0, hb, False, flag))
+                        for c in (0, 1):
+                            h.preload.append(("child", node, c, c, 6, ""))
+                    second = str(int(text) - 2) if _heartbeat_accepted("2.0", (n, 255, 3, 0, 22, text)) else "abc"
+                    h.ops = ([wake(v, n, str(stored))] if announced else []) + [
+                        ("send", (n, 1, 1, 0, 0, "10"), True, ()), ("send", (n, 0, 1, k % 2, 2, "11"), True, ()),
+                        ("send", (m, 1, 1, 0, 0, "50"), True, ()), ("send", (a, 1, 1, 0, 0, "70"), True, ()),
+                        wake(v, n, text),
+                        ("send", (n, 1, 1, 0, 0, "12"), True, ()), ("send", (m, 0, 1, 0, 2, "51"), True, ()),
+                        wake(v, n, second), wake(v, m, text),
+                        ("send", (m, 1, 1, 0, 0, "52"), True, ()), ("send", (n, 1, 1, 0, 0, "13"), False, ()),
+                        wake(v, m, "0"), wake(v, n, "0"), wake(v, a, "0")]
+                    hists.append(h)
+                    corr.count("wake payloads: the wake carries - " + name)
+    corr.count("histories: what the wake signal carries x stored heartbeat value (grid)", len(hists))
+    rng = lib.rng_for(ctx.seed, "c12wakepayloads")
+    n_rand = 80 if ctx.tier == "quick" else 2000
+    for i in range(n_rand):
+        v = V20[i % 3]
+        h = Hist(v, True)
+        counts = {}
+        for node in (1, 2):
+            counts[node] = rng.choice((0, 0, 3, 500, 2 ** 32 - 1, 10 ** 20))
+            h.preload.append(("node", node, 17, "2.0", "", "", 0, counts[node], False, rng.random() < 0.8))
+            for c in (0, 1):
+                h.preload.append(("child", node, c, c, 6, ""))
+        pay = 100
+        for _ in range(rng.randint(2, 8 if ctx.tier == "quick" else 20)):
+            for _ in range(rng.randint(1, 3)):
+                pay += 1
+                h.ops.append(("send", (rng.choice((1, 2)), rng.choice((0, 1)), 1, rng.choice((0, 1)), rng.choice((0, 2)), str(pay)),
+                              rng.random() < 0.9, ()))
+            n = rng.choice((1, 2))
+            if rng.random() < 0.08:
+                h.ops.append(wake(v, n, rng.choice(WAKE_NOT_A_NUMBER)))
+            else:
+                counts[n] = next_wake_count(rng, counts[n])
+                h.ops.append(wake(v, n, wake_text(rng, counts[n])))
+        h.ops += [wake(v, 1, "0"), wake(v, 2, "0")]
+        hists.append(h)
+    corr.count("histories: what the wake signal carries, random walks of the nodes' counters", n_rand)
+    return hists
+
+
 # ---- C12 and the caller's own objects ------------------------------------------------------------------------------
 #
 # `send(message)` is handed an object that belongs to the caller.  The property speaks of "every message ... and every
@@ -2898,7 +3034,11 @@ def run_c12(ctx) -> Corr:
                 "a failing write; 1 500 - 20 000 keys, thorough: up to 250 000), every send returning normally, then every node "
                 "wakes: the last line sent for every key is handed to the transport exactly once; plus the caller's own Message "
                 "objects (_c12_object_histories): one instance sent again after an assignment to any attribute, assigned to "
-                "while it is held, used as a template, next to one-call messages. "
+                "while it is held, used as a template, next to one-call messages; plus WHAT THE WAKE SIGNAL CARRIES "
+                "(_c12_wake_payload_histories): the heartbeat value stored for the sleeping destination (from its last wake or "
+                "restored: 0, small, huge) x the counter / duration its next wake carries (lower, equal, higher, 0, 1, huge, "
+                "negative, signed / padded / leading zeros, no number = rejected under 2.0 / 2.1, no wake) and random walks of "
+                "two nodes' counters: every accepted wake signal hands over what is held, whatever it carries. "
                 "non-trivial = distinct (version, destination state, message, flag, fault); scale: distinct held sends")
     corr.notes.append("scale scenarios (_c12_scale): judged by an observational oracle of their own (_c12_scale_oracle: outcome, write "
                       "attempts, the destination's public `sleeping` flag at the time of the send - never the gateway's buffer). The "
@@ -2959,6 +3099,10 @@ def run_c12(ctx) -> Corr:
     hists += _c12_between_histories(ctx, corr)
     corr.count("histories: one send per destination state, then a wake of every node", n_base)
     corr.count("histories: traffic between hold and wake", len(hists) - n_base)
+    # what the destination's wake signal carries (a counter that falls, stands still, restarts; a duration) is no condition
+    hists += _c12_wake_payload_histories(ctx, corr)
+    corr.notes.append("the wake-payload histories (_c12_wake_payload_histories) are recv / send operations only: compared with "
+                      "the Lean model on the writes view and judged by _c12_oracle")
     # what is held is the message that was sent: value kinds an immediate write leaves alone (shared with C07)
     n_base = len(hists)
     hists += held_payload_histories(ctx, corr, grid_only=True)
